@@ -91,11 +91,16 @@ def _children():
     return _sc3()['m'].main._current_synthdef._children
 
 
+_CMP_NORMAL = {'>': ('<', 'swap'), '>=': ('<=', 'swap'), '<': ('<', None),
+               '<=': ('<=', None), '==': ('==', 'sort'), '!=': ('!=', 'sort')}
+
+
 def _canon(x, memo):
     S = _sc3()
     ugn = S['ugn']
     if isinstance(x, (bool, int, float)):
-        return ('c', float(x))
+        x = float(x)
+        return ('c', 'nan') if x != x else ('c', x)
     if isinstance(x, str):
         return ('s', x)
     if x is None:
@@ -109,6 +114,17 @@ def _canon(x, memo):
         return memo[k]
     if isinstance(x, ugn.OutputProxy):
         r = ('p', _canon(x.source_ugen, memo), x._output_index, x.rate)
+    elif isinstance(x, ugn.BinaryOpUGen) and x.operator in _CMP_NORMAL:
+        # python evaluates `u < v` between two unit generators as u.__lt__(v)
+        # but `[u] < ChannelList([v])` through the reflected v.__gt__(u): the
+        # same signal.  Comparisons are compared up to that mirror image.
+        ins = [_canon(i, memo) for i in x.inputs]
+        op, how = _CMP_NORMAL[x.operator]
+        if how == 'sort':
+            ins.sort(key=repr)
+        elif how == 'swap':
+            ins.reverse()
+        r = ('u', 'BinaryOpUGen', x.rate, op, tuple(ins), 0)
     elif isinstance(x, ugn.SynthObject):
         r = ('u', type(x).__name__, x.rate, x._special_index,
              tuple(_canon(i, memo) for i in x.inputs), len(x._channels))
@@ -726,7 +742,9 @@ def _chm_case(name, recv, rate, spec):
         return [getattr(r[0], name)(**dict(zip(keys, r[1:]))) for r in rows]
     real = _observe(mkargs, real_call)
     ref = _observe(mkargs, ref_call)
-    return _judge(real, ref, True)
+    # poll hands its receiver back unchanged (a pass-through for chaining, as
+    # in sclang): only the units it creates are subject to the law.
+    return _judge(real, ref, True, compare_value=(name != 'poll'))
 
 
 def _chm_specs(name, ps, tier, rng):
@@ -816,7 +834,16 @@ def _chm_worker(job):
                 if not samples and variant == 'grid' and n > 20:
                     samples.append(d)
                 if st == 'viol':
-                    k = sum(1 for w in viols if w['variant'] == variant)
+                    if variant == 'defaults':
+                        # is it really the default values?  Fill the omitted
+                        # positions with ChannelList's own defaults: if the
+                        # call still deviates it is not a defaults problem.
+                        dflt = dict(ps)
+                        full = [(p, 'const', dflt[p]) if k == 'omit' else
+                                (p, k, v) for (p, k, v) in spec]
+                        if _chm_case(name, recv, rate, full)[0] == 'viol':
+                            d['variant'] = 'grid'
+                    k = sum(1 for w in viols if w['variant'] == d['variant'])
                     if k < 3:
                         d.update(what=what, observed=obs, expected=exp)
                         viols.append(d)
@@ -1103,7 +1130,7 @@ def check_out_units(rep):
     for job in _out_jobs():
         cname, nfixed, rate, b, c = job
         for via in ('objects', 'bytes'):
-            if via == 'bytes' and rate != 'ar':
+            if via == 'bytes' and (rate != 'ar' or c == 'lxc'):
                 continue
             st, what, obs, exp = _out_run(job, via)
             n += 1
